@@ -20,14 +20,20 @@ pub struct Case {
     pub family: &'static str,
     /// also check `from_bytes` (no expected type) against the wire values
     pub untyped: bool,
+    /// spell these field ids by name in the expected type handed to the implementation
+    pub names: Vec<(u32, String)>,
 }
 
 pub fn check_case(c: &Case, rep: &mut Report, lim: &Limits) {
     rep.evaluations += 1;
     rep.transitions += 1;
     let (m, d) = model_decode_at(&c.bytes, &c.eenv, &c.etys, lim);
-    let renv = bridge::to_real_env(&c.eenv);
-    let rtys: Vec<_> = c.etys.iter().map(bridge::to_real_ty).collect();
+    let label = |id: u32| match c.names.iter().find(|n| n.0 == id) {
+        Some((_, n)) => candid::types::Label::Named(n.clone()),
+        None => candid::types::Label::Id(id),
+    };
+    let renv = bridge::to_real_env_with(&c.eenv, &label);
+    let rtys: Vec<_> = c.etys.iter().map(|t| bridge::to_real_ty_with(t, &label)).collect();
     let i = impl_decode_at(&c.bytes, &renv, &rtys);
     rep.traces_validated += 1;
     rep.outcome(&format!("{}:{}", c.family, outcome_class(&m)));
@@ -36,10 +42,10 @@ pub fn check_case(c: &Case, rep: &mut Report, lim: &Limits) {
     }
     if let Some(msg) = compare(&m, &i) {
         let key = format!(
-            "decode|bytes={}|env={}|tys={}",
-            hex(&c.bytes),
+            "decode|env={}|tys={}|bytes={}",
             c.eenv.to_string().replace('\n', ""),
-            tys_text(&c.etys)
+            tys_text(&c.etys),
+            hex(&c.bytes)
         );
         let mut case = decode_case_json(&c.bytes, &c.eenv, &c.etys);
         if let Some(d) = &d {
@@ -94,7 +100,7 @@ pub fn build_scope(tier: Tier) -> (Scope, Vec<String>) {
         for v in gen::values(&empty, w, &dom, 2) {
             let Some(b) = enc(&empty, &[w.clone()], &[v.clone()]) else { continue };
             for e in &t1 {
-                cases.push(Case { bytes: b.clone(), eenv: empty.clone(), etys: vec![e.clone()], family: "A:depth1xdepth1", untyped: false });
+                cases.push(Case { bytes: b.clone(), eenv: empty.clone(), etys: vec![e.clone()], family: "A:depth1xdepth1", untyped: false, names: vec![] });
                 a += 1;
             }
         }
@@ -131,7 +137,7 @@ pub fn build_scope(tier: Tier) -> (Scope, Vec<String>) {
             for v in &vals {
                 let Some(b) = enc(&empty, &[w.clone()], &[v.clone()]) else { continue };
                 for e in &exps {
-                    cases.push(Case { bytes: b.clone(), eenv: empty.clone(), etys: vec![e.clone()], family: "B:depth2xneighbours", untyped: wi == 0 });
+                    cases.push(Case { bytes: b.clone(), eenv: empty.clone(), etys: vec![e.clone()], family: "B:depth2xneighbours", untyped: wi == 0, names: vec![] });
                     bcount += 1;
                 }
             }
@@ -149,7 +155,7 @@ pub fn build_scope(tier: Tier) -> (Scope, Vec<String>) {
             for eenv in eenvs {
                 for v in &vals {
                     let Some(b) = enc(&wenv, &[wt.clone()], &[v.clone()]) else { continue };
-                    cases.push(Case { bytes: b, eenv: eenv.clone(), etys: vec![et.clone()], family: "C:recursive", untyped: true });
+                    cases.push(Case { bytes: b, eenv: eenv.clone(), etys: vec![et.clone()], family: "C:recursive", untyped: true, names: vec![] });
                     ccount += 1;
                 }
             }
@@ -168,7 +174,7 @@ pub fn build_scope(tier: Tier) -> (Scope, Vec<String>) {
         let vals: Vec<Val> = vs.into_iter().map(|mut x| x.pop().unwrap()).collect();
         let Some(b) = enc(&empty, ws, &vals) else { continue };
         for es in &seqs {
-            cases.push(Case { bytes: b.clone(), eenv: empty.clone(), etys: es.clone(), family: "D:argument-sequences", untyped: false });
+            cases.push(Case { bytes: b.clone(), eenv: empty.clone(), etys: es.clone(), family: "D:argument-sequences", untyped: false, names: vec![] });
             dcount += 1;
         }
     }
@@ -183,12 +189,12 @@ pub fn build_scope(tier: Tier) -> (Scope, Vec<String>) {
         let Some(b1) = enc(&empty, &[w.clone()], &[v.clone()]) else { continue };
         let Some(b2) = enc(&empty, &[Ty::opt(w.clone()), w.clone()], &[Val::some(v.clone()), v.clone()]) else { continue };
         for e in &refs {
-            cases.push(Case { bytes: b1.clone(), eenv: empty.clone(), etys: vec![e.clone()], family: "E:references", untyped: false });
-            cases.push(Case { bytes: b2.clone(), eenv: empty.clone(), etys: vec![Ty::opt(e.clone()), e.clone()], family: "E:references-opt-then-plain", untyped: false });
+            cases.push(Case { bytes: b1.clone(), eenv: empty.clone(), etys: vec![e.clone()], family: "E:references", untyped: false, names: vec![] });
+            cases.push(Case { bytes: b2.clone(), eenv: empty.clone(), etys: vec![Ty::opt(e.clone()), e.clone()], family: "E:references-opt-then-plain", untyped: false, names: vec![] });
             ecount += 2;
         }
         for e in [Ty::Prim(P::Principal), Ty::opt(Ty::Prim(P::Principal)), Ty::Prim(P::Reserved), Ty::Prim(P::Text)] {
-            cases.push(Case { bytes: b1.clone(), eenv: empty.clone(), etys: vec![e], family: "E:references", untyped: true });
+            cases.push(Case { bytes: b1.clone(), eenv: empty.clone(), etys: vec![e], family: "E:references", untyped: true, names: vec![] });
             ecount += 1;
         }
     }
@@ -224,13 +230,66 @@ pub fn build_scope(tier: Tier) -> (Scope, Vec<String>) {
                 // expected: the wire type itself (through a renamed copy of the environment) and reserved
                 let eenv = wenv.rename(&|s| format!("x{s}"));
                 let et = wt.rename(&|s| format!("x{s}"));
-                cases.push(Case { bytes: b.clone(), eenv, etys: vec![et], family: "F:noncanonical-table", untyped: true });
-                cases.push(Case { bytes: b, eenv: Env::new(), etys: vec![Ty::Prim(P::Reserved)], family: "F:noncanonical-table", untyped: false });
+                cases.push(Case { bytes: b.clone(), eenv, etys: vec![et], family: "F:noncanonical-table", untyped: true, names: vec![] });
+                cases.push(Case { bytes: b, eenv: Env::new(), etys: vec![Ty::Prim(P::Reserved)], family: "F:noncanonical-table", untyped: false, names: vec![] });
                 fcount += 2;
             }
         }
     }
     notes.push(format!("F: {} cases", fcount));
+    // ---- L: expected types that spell their labels by name (the decoder hands names to the
+    //         value visitor): every hostile name in record, variant and surplus-field position
+    let mut lcount = 0;
+    for name in ["_", ",", "a,b", ",name,unit", "a", "", "true", "id", "\u{540d}\u{5b57}", "_0_", "0", "a b", "\"", "type"] {
+        let id = refmodel::hash::idl_hash(name);
+        let names = vec![(id, name.to_string())];
+        let shapes: Vec<(Ty, Vec<Val>)> = vec![
+            (Ty::record(vec![(id, Ty::Prim(P::Nat))]), vec![Val::record(vec![(id, Val::nat(1))])]),
+            (Ty::variant(vec![(id, Ty::Prim(P::Null))]), vec![Val::Variant(id, Box::new(Val::Null))]),
+            (Ty::variant(vec![(id, Ty::Prim(P::Nat)), (id.wrapping_add(1), Ty::Prim(P::Null))]), vec![Val::Variant(id, Box::new(Val::nat(7))), Val::Variant(id.wrapping_add(1), Box::new(Val::Null))]),
+            (Ty::variant(vec![(id, Ty::record(vec![(id, Ty::Prim(P::Text))]))]), vec![Val::Variant(id, Box::new(Val::record(vec![(id, Val::Text("x".into()))])))]),
+            (Ty::vec(Ty::record(vec![(id, Ty::opt(Ty::Prim(P::Nat)))])), vec![Val::Vec(vec![Val::record(vec![(id, Val::some(Val::nat(2)))]), Val::record(vec![(id, Val::none())])])]),
+        ];
+        for (t, vals) in shapes {
+            for v in vals {
+                let Some(b) = enc(&empty, &[t.clone()], &[v.clone()]) else { continue };
+                // at its own type, at the type with one more (optional) field, and from a wire with a surplus field
+                let mut exps = vec![t.clone()];
+                if let Ty::Record(fs) = &t {
+                    let mut g = fs.clone();
+                    g.push((id.wrapping_add(9), Ty::opt(Ty::Prim(P::Nat))));
+                    exps.push(Ty::record(g));
+                    exps.push(Ty::record(vec![]));
+                }
+                for e in exps {
+                    cases.push(Case { bytes: b.clone(), eenv: empty.clone(), etys: vec![e], family: "L:named-labels", untyped: false, names: names.clone() });
+                    lcount += 1;
+                }
+            }
+        }
+        // surplus wire fields below and above the named one
+        let wt = Ty::record(vec![(id.wrapping_sub(1), Ty::Prim(P::Text)), (id, Ty::Prim(P::Nat)), (id.wrapping_add(1), Ty::Prim(P::Bool))]);
+        let wv = Val::record(vec![(id.wrapping_sub(1), Val::Text("s".into())), (id, Val::nat(3)), (id.wrapping_add(1), Val::Bool(true))]);
+        if let Some(b) = enc(&empty, &[wt], &[wv]) {
+            cases.push(Case { bytes: b, eenv: empty.clone(), etys: vec![Ty::record(vec![(id, Ty::Prim(P::Nat))])], family: "L:named-labels", untyped: false, names: names.clone() });
+            lcount += 1;
+        }
+    }
+    notes.push(format!("L: {} cases", lcount));
+    // ---- T: an expected environment whose definitions are called like the decoder's own
+    //         names for wire table entries
+    let mut tcount = 0;
+    let tenv = Env::from(vec![("table0", Ty::opt(Ty::record(vec![(0, Ty::Prim(P::Nat)), (1, Ty::var("table0"))]))), ("table1", Ty::Prim(P::Text))]);
+    for (wenv, wt) in recursive_envs("w").into_iter().take(2) {
+        for v in gen::values(&wenv, &wt, &dom, 3).into_iter().take(4) {
+            let Some(b) = enc(&wenv, &[wt.clone()], &[v]) else { continue };
+            for et in [Ty::var("table0"), Ty::var("table1"), Ty::Prim(P::Reserved)] {
+                cases.push(Case { bytes: b.clone(), eenv: tenv.clone(), etys: vec![et], family: "T:env-named-like-wire-table", untyped: false, names: vec![] });
+                tcount += 1;
+            }
+        }
+    }
+    notes.push(format!("T: {} cases", tcount));
     // ---- H: hostile tables: all tables of <= 2 entries over an entry alphabet
     let ralpha: Vec<i64> = vec![0, 1, 2, -1, -3, -17, -24, -25, -18];
     let mut ealpha: Vec<Entry> = vec![];
@@ -282,7 +341,7 @@ pub fn build_scope(tier: Tier) -> (Scope, Vec<String>) {
                 let mut b = hb.clone();
                 b.extend(&vb);
                 for es in &hexp {
-                    cases.push(Case { bytes: b.clone(), eenv: Env::new(), etys: es.clone(), family: "H:hostile-tables", untyped: es.is_empty() });
+                    cases.push(Case { bytes: b.clone(), eenv: Env::new(), etys: es.clone(), family: "H:hostile-tables", untyped: es.is_empty(), names: vec![] });
                     hcount += 1;
                 }
             }
@@ -320,7 +379,7 @@ pub fn run(tier: Tier, replay: Option<&str>) -> i32 {
     let r1 = ctx.par_range("1-deviation", gsrc.len() as u64, 4, || (), |_, i, rep| {
         let c = gsrc[i as usize];
         for m in byte_mutants(&c.bytes, &[0x00, 0x01, 0x7f, 0x80]) {
-            let mc = Case { bytes: m, eenv: c.eenv.clone(), etys: c.etys.clone(), family: "G:1-byte-deviation", untyped: false };
+            let mc = Case { bytes: m, eenv: c.eenv.clone(), etys: c.etys.clone(), family: "G:1-byte-deviation", untyped: false, names: c.names.clone() };
             check_case(&mc, rep, &lim);
         }
     });
@@ -331,7 +390,7 @@ pub fn run(tier: Tier, replay: Option<&str>) -> i32 {
             let c = g2[i as usize];
             for m in byte_mutants(&c.bytes, &[0x00]) {
                 for m2 in byte_mutants(&m, &[]) {
-                    let mc = Case { bytes: m2, eenv: c.eenv.clone(), etys: c.etys.clone(), family: "G:2-byte-deviation", untyped: false };
+                    let mc = Case { bytes: m2, eenv: c.eenv.clone(), etys: c.etys.clone(), family: "G:2-byte-deviation", untyped: false, names: c.names.clone() };
                     check_case(&mc, rep, &lim);
                 }
             }
@@ -356,11 +415,11 @@ fn replay_case(path: &str, lim: &Limits) -> i32 {
     let bytes = unhex(case["bytes"].as_str().unwrap());
     let mut rep = Report::new();
     if case["untyped"].as_bool() == Some(true) {
-        let c = Case { bytes, eenv: Env::new(), etys: vec![], family: "replay", untyped: true };
+        let c = Case { bytes, eenv: Env::new(), etys: vec![], family: "replay", untyped: true, names: vec![] };
         check_case(&c, &mut rep, lim);
     } else {
         let (eenv, etys) = parse_env_and_types(case["expected_env"].as_str().unwrap(), case["expected_types"].as_str().unwrap()).expect("types");
-        let c = Case { bytes, eenv, etys, family: "replay", untyped: false };
+        let c = Case { bytes, eenv, etys, family: "replay", untyped: false, names: vec![] };
         check_case(&c, &mut rep, lim);
     }
     for v in &rep.violations {
